@@ -42,7 +42,7 @@ Definition rstate_eqb (a b : rstate) : bool :=
 Definition out_eqb (a b : out) : bool :=
   match a, b with
   | OReady, OReady => true
-  | OTimer d, OTimer d' => Z.eqb d d'
+  | OTimer d f, OTimer d' f' => Z.eqb d d' && Bool.eqb f f'
   | OX e r, OX e' r' => xev_eqb e e' && xres_eqb r r'
   | OExit i, OExit i' => N.eqb i i'
   | OCancel i, OCancel i' => N.eqb i i'
@@ -69,18 +69,19 @@ Definition obs_eqb (a b : obs) : bool :=
 
 (* ---- P on the implementation trace ------------------------------------------ *)
 
-Fixpoint viol_from (i : nat) (m : mon) (its : list item) : verdict :=
+Fixpoint viol_from (i : nat) (m : mon) (b : obm) (its : list item) : verdict :=
   match its with
   | [] => VOk
   | it :: r =>
     let c := ctx_of it in
     let m0 := item_begin m in
-    let k := chk_outs chk_all c m0 (i_outs it) in
-    if is_empty k then
-      let m' := mon_outs c m0 (i_outs it) in
-      let k' := chk_end c m' in
-      if is_empty k' then viol_from (S i) m' r else VViolation i k'
-    else VViolation i k
+    let b0 := obm_begin b in
+    let m' := mon_outs c m0 (i_outs it) in
+    let b' := obm_outs c b0 (i_outs it) in
+    let k := cat2 (chk_outs chk_all c m0 (i_outs it))
+            (cat2 (chk_end c m')
+            (cat2 (ochk_outs c b0 (i_outs it)) (ochk_end c b'))) in
+    if is_empty k then viol_from (S i) m' b' r else VViolation i k
   end.
 
 (* ---- model against implementation ------------------------------------------- *)
@@ -102,4 +103,4 @@ Definition mism (c : case) : verdict :=
   else mism_from 0 (init (c_t0 c)) (c_items c).
 
 Definition check_case (c : case) : verdict :=
-  vcombine (viol_from 0 mon_init (c_items c)) (mism c).
+  vcombine (viol_from 0 mon_init (obm_init (c_t0 c)) (c_items c)) (mism c).
